@@ -586,6 +586,61 @@ func (p *Prog) Callers(fn *ssa.Function) []ssa.CallInstruction {
 	return out
 }
 
+// CallersLoose is Callers plus, for a method that is promoted through embedding (the
+// receiver type itself does not implement the interface, a struct embedding it does),
+// the interface invokes of a method of the same name whose interface is implemented by a
+// repository type that embeds the receiver type.
+func (p *Prog) CallersLoose(fn *ssa.Function) []ssa.CallInstruction {
+	out := p.Callers(fn)
+	if fn.Signature.Recv() == nil {
+		return out
+	}
+	have := map[ssa.CallInstruction]bool{}
+	for _, c := range out {
+		have[c] = true
+	}
+	rt := deref(fn.Signature.Recv().Type())
+	embeds := func(t types.Type) bool {
+		st, ok := deref(t).Underlying().(*types.Struct)
+		if !ok {
+			return false
+		}
+		for i := 0; i < st.NumFields(); i++ {
+			if f := st.Field(i); f.Embedded() && types.Identical(deref(f.Type()), rt) {
+				return true
+			}
+		}
+		return false
+	}
+	var embedders []types.Type
+	for _, pk := range p.All {
+		sc := pk.Types.Scope()
+		for _, n := range sc.Names() {
+			if tn, ok := sc.Lookup(n).(*types.TypeName); ok && embeds(tn.Type()) {
+				embedders = append(embedders, tn.Type())
+			}
+		}
+	}
+	for _, ci := range p.invokers[fn.Name()] {
+		if have[ci] {
+			continue
+		}
+		it, ok := ci.Common().Value.Type().Underlying().(*types.Interface)
+		if !ok {
+			continue
+		}
+		for _, e := range embedders {
+			if types.Implements(e, it) || types.Implements(types.NewPointer(e), it) {
+				out = append(out, ci)
+				have[ci] = true
+				break
+			}
+		}
+	}
+	sort.Slice(out, func(i, j int) bool { return out[i].Pos() < out[j].Pos() })
+	return out
+}
+
 func deref(t types.Type) types.Type {
 	if pt, ok := t.Underlying().(*types.Pointer); ok {
 		return pt.Elem()
